@@ -179,7 +179,11 @@ impl Part for C01Part {
         if (eff > 0 && segs >= 2) || (weak_checksum && data_lost) || oversize {
             out = out.nt(hash_json(sc));
         }
-        out = out.class_if(oversize, "data-beyond-announced-size");
+        let rewritten = tr.cmds.iter().any(|c| c.2.starts_with("RewriteSource"));
+        if rewritten {
+            out = out.nt(hash_json(sc));
+        }
+        out = out.class_if(oversize, "data-beyond-announced-size").class_if(rewritten, "source-rewritten");
         out = out
             .class_if(p.unack, "unack")
             .class_if(!p.unack, "ack")
@@ -306,12 +310,12 @@ pub fn run(ctx: &mut Ctx) {
     ctx.rule = "proptest scenarios: one Put between two real daemons; segment size in {16,24,32,64,1024}, file size in {0,1,seg-1,seg,seg+1,2seg,3seg-1,3seg+1,4seg,5seg+3,8seg,12seg}, \
 content in {random, zero, zero runs aligned to segments, checksum-neutral word pairs, zero tail}, both modes, closure, Modular/Null checksum, CRC, 6 NAK procedures (independent \
 for the receiver), limits 1..4, timeouts 1..5 s, id widths 1/2/4/8, serialisation delay 0/1/10 ms, latency 0..5 ms, 0..5 faults over the first 30 datagrams of either direction \
-(drop, duplicate, delay, single-bit corruption only with the CRC on), tokio scheduler seed; two exhaustive families: one lost datagram at every position under weak checksums, and - without CRC, modular checksum - one flipped bit in the file data of each segment; and a puppet-sender family in which a File Data PDU beyond the announced file size (zeros, checksum-neutral or random bytes) arrives before the EOF, between EOF and the rest of the data, or last. Non-trivial = a fault hit a datagram and the file has >= 2 segments, or the content/checksum \
+(drop, duplicate, delay, single-bit corruption only with the CRC on), tokio scheduler seed; two exhaustive families: one lost datagram at every position under weak checksums, and - without CRC, modular checksum - one flipped bit in the file data of each segment; and a puppet-sender family in which a File Data PDU beyond the announced file size (zeros, checksum-neutral or random bytes) arrives before the EOF, between EOF and the rest of the data, or last; and a family in which the source file is rewritten in place after the k-th datagram of the sender (every k, with and without a loss). Non-trivial = a fault hit a datagram and the file has >= 2 segments, or the content/checksum \
 is weak (null checksum, neutral, zero runs, zero tail) and some data byte never reached the receiver, or data beyond the announced size reached the receiver; distinct by the whole scenario."
         .into();
     ctx.assumptions = vec![
         "bit corruption is injected only when the CRC option is on (without it CFDP has no protection against payload corruption of metadata/EOF)".into(),
-        "the source file does not change during the transfer".into(),
+        "the source file changes during the transfer only in the family made for it (rewritten in place, same length); the file compared with is the content at the time of the Put request".into(),
     ];
     let part = C01Part;
     ctx.run_known_replays(&part);
@@ -369,6 +373,34 @@ is weak (null checksum, neutral, zero runs, zero tail) and some data byte never 
         }
     }
     ctx.section = "one-flipped-data-bit-no-crc".into();
+    ctx.drive_list(&part, cases, true);
+    // the source file is rewritten in place (same length, every byte changed) while the transfer runs, after the k-th datagram
+    // of the sender: what the statement calls "the source file as it was when the transfer was requested" is the old content;
+    // a mixture or the new content may be delivered only as a failure. Modular checksum (the null checksum cannot notice).
+    let mut cases = vec![];
+    for unack in [false, true] {
+        for closure in [false, true] {
+            for nak_immediate in [false, true] {
+                for nsegs in [2u32, 4, 7] {
+                    for k in 1..=nsegs + 1 {
+                        for lost in [None, Some(1u32), Some(nsegs)] {
+                            let cfg = CfgSpec { seg: 16, null_checksum: false, closure, nak: NakSpec { immediate: nak_immediate, delay_ms: 0 }, ..CfgSpec::default() };
+                            let mut sc = Scenario::two_entities(cfg.clone(), cfg.clone());
+                            sc.seed = ctx.seed ^ (k as u64) << 8;
+                            sc.puts.push(simple_put(16 * nsegs - 3, ContentClass::Random, 5 + k as u64, unack));
+                            sc.actions.push(Action { trigger: Trigger::OnOrdinal { from: 0, to: 1, ordinal: k, delay_ms: 0 }, entity: 0, kind: ActionKind::RewriteSource { put: 0 } });
+                            if let Some(l) = lost {
+                                sc.faults.push(Fault { from: 0, to: 1, ordinal: l, kind: FaultKind::Drop });
+                            }
+                            sc.horizon_ms = generous_horizon(&[&cfg]);
+                            cases.push(C01Case { sc });
+                        }
+                    }
+                }
+            }
+        }
+    }
+    ctx.section = "source-rewritten-during-transfer".into();
     ctx.drive_list(&part, cases, true);
     let seed = ctx.seed;
     let n = ctx.tier.pick(8_000u64, 300_000);
